@@ -30,12 +30,30 @@ func isCallbackType(t types.Type) bool {
 // they have exactly one store.
 func Expr(v ssa.Value) string { return exprDepth(v, 0) }
 
+// canonParams: render parameters by position ($recv, $1, $2, …) instead of by
+// name, so that a rule which compares provenance expressions with an expected
+// text does not depend on how parameters are called. Set by such rules only.
+var canonParams bool
+
 func exprDepth(v ssa.Value, d int) string {
 	if d > 12 {
 		return "…"
 	}
 	switch x := v.(type) {
 	case *ssa.Parameter:
+		if canonParams {
+			for i, q := range x.Parent().Params {
+				if q == x {
+					if x.Parent().Signature.Recv() != nil {
+						if i == 0 {
+							return "$recv"
+						}
+						return fmt.Sprintf("$%d", i)
+					}
+					return fmt.Sprintf("$%d", i+1)
+				}
+			}
+		}
 		return x.Name()
 	case *ssa.FreeVar:
 		return "free:" + x.Name()
